@@ -100,6 +100,21 @@ def make_pair(key=b"k" * 32):
     return cs, cr, link
 
 
+def let_time_pass(seconds):
+    """virtual time advances; every timer that falls due fires"""
+    t_end = reactor.seconds() + seconds
+    for _ in range(2000):
+        fut = [c for c in reactor.getDelayedCalls() if c.getTime() <= t_end]
+        if not fut:
+            break
+        reactor._sortCalls()
+        try:
+            reactor.run_call(reactor.calls[0])
+        except Exception:
+            pass
+    reactor.rightNow = max(reactor.rightNow, t_end)
+
+
 def split_frames(buf):
     frames = []
     while len(buf) >= 4:
@@ -116,12 +131,17 @@ CHUNKINGS = ["whole", "two", "bytes", "lenbody", "coalesce"]
 class RecordRun:
     """One C06 execution: one direction of a real negotiated connection, with the adversary on the wire."""
 
-    def __init__(self, tid, direction, chunking, consumer, rng, sizes):
+    def __init__(self, tid, direction, chunking, consumer, rng, sizes, slow=False):
         self.tid, self.direction, self.chunking, self.consumer_mode = tid, direction, chunking, consumer
         self.rng = rng
         self.logged = Logged()
         log.addObserver(self.logged)
         cs, cr, link = make_pair()
+        self.slow = slow
+        self.env_closed = False
+        if slow:
+            # a slow transfer: more than the negotiation timeouts pass before (and between) the records
+            let_time_pass(2 * transit.TIMEOUT + 7)
         self.src, self.dst = (cs, cr) if direction == "s2r" else (cr, cs)
         self.other_dir_frames = []
         self.link = link
@@ -186,6 +206,10 @@ class RecordRun:
     def do(self, act):
         self.schedule.append(act)
         a = act[0]
+        if a in ("Cut", "Lose"):
+            self.env_closed = True
+        if self.slow and a == "Recv" and len(self.schedule) % 2 == 0:
+            let_time_pass(transit.TIMEOUT + 3)
         if a == "Send":
             i = len(self.payloads)
             n = self._size(i)
@@ -367,7 +391,8 @@ class RecordRun:
                "gotBytes": sum(len(self.payloads[i - 1]) for i in self.got if isinstance(i, int)),
                "clean": self.at_tamper < 0 and [f for f, _ in self.wire] == self.honest[self.consumed:], "inflight": len(self.wire),
                "internal": self.internal, "direction": self.direction, "chunking": self.chunking,
-               "consumer": self.consumer_mode, "loopReader": self.loop_reader, "rearmed": self.rearmed}
+               "consumer": self.consumer_mode, "loopReader": self.loop_reader, "rearmed": self.rearmed,
+               "slow": self.slow, "envClosed": bool(self.env_closed)}
         return rec
 
 
@@ -446,6 +471,11 @@ def run_c06(prop, tier):
                                 acts += [("Read", 0, "-")] * (k - k // 2)
                             acts += [("Lose", 0, "-")]
                             behaviours.append((cm, k, acts, "cover"))
+        # clean, slow transfers (no adversary at all): the connection must simply stay up and deliver
+        for cm in (False, True):
+            for k in (1, 3):
+                acts = [("Send", x + 1, "-") for x in range(k)] + ([] if cm else [("Read", 0, "-")] * k) + [("Recv", 0, "-")] * k
+                behaviours.append((cm, k, acts, "clean-slow"))
         cov["behaviours"] = len(behaviours)
         nontrivial = set()
         for (cm, nrec, acts, origin) in behaviours:
@@ -454,7 +484,10 @@ def run_c06(prop, tier):
             for (direction, chunking) in variants[:(3 if quick else 10)]:
                 tid += 1
                 sizes = rng.choice(SIZE_PROFILES[:2] if chunking == "bytes" else SIZE_PROFILES)
-                run = RecordRun(tid, direction, chunking, cm, random.Random(seed * 7919 + tid), sizes)
+                slow = (tid % 5 == 4) or origin == "clean-slow"
+                if slow and acts and acts[-1][0] == "Lose":
+                    acts = acts[:-1]          # (so that there is a connection left to look at)
+                run = RecordRun(tid, direction, chunking, cm, random.Random(seed * 7919 + tid), sizes, slow=slow)
                 run.async_close = (tid % 3 == 0)
                 run.loop_reader = (not cm) and (tid % 4 < 2)
                 if cm:
@@ -497,7 +530,7 @@ def run_c06(prop, tier):
                 v.violation({"clause": bad[0], "manipulation": manip[0] if manip else "none", "mode": "consumer" if rec["consumer"] else "queue"},
                             "%s fails on a real Transit connection (%s, chunking %s): %s" % (",".join(bad), rec["direction"], rec["chunking"],
                                                                                              json.dumps({k: rec[k] for k in ("sent", "got", "atTamper", "state", "pendingReads", "consumerDone")})),
-                            {"schedule": run.schedule, "direction": rec["direction"], "chunking": rec["chunking"], "sizes": run.sizes, "async_close": run.async_close, "loop_reader": run.loop_reader,
+                            {"schedule": run.schedule, "direction": rec["direction"], "chunking": rec["chunking"], "sizes": run.sizes, "async_close": run.async_close, "loop_reader": run.loop_reader, "slow": run.slow,
                              "consumer": rec["consumer"], "observation": rec})
         cov.update(states=states, transitions=transitions, traces_validated_against_impl=len(records), evaluations=len(records),
                    distinct_nontrivial=len(nontrivial), failing_runs=failing,
@@ -526,7 +559,7 @@ def replay(prop, path):
     if prop != "C06":
         from . import transit_select
         return transit_select.replay(prop, path)
-    run_ = RecordRun(1, d["direction"], d["chunking"], d["consumer"], random.Random(1), d["sizes"])
+    run_ = RecordRun(1, d["direction"], d["chunking"], d["consumer"], random.Random(1), d["sizes"], slow=bool(d.get("slow")))
     run_.async_close = bool(d.get("async_close"))
     run_.loop_reader = bool(d.get("loop_reader"))
     if d["consumer"]:
